@@ -926,11 +926,14 @@ func TestVerifC13(t *testing.T) {
 	root := vfNewRand(seed)
 	scripted := c13Scripted()
 	modes := []ModeOpt{ModeAuto, ModeAutoServer, ModeAuto, ModeAutoServer, ModeClient, ModeServer}
+	vfStartWatchdog(90 * time.Second)
+	defer vfStopWatchdog()
 	for i := 0; i < n; i++ {
 		r := root.Fork()
 		if only >= 0 && i != only {
 			continue
 		}
+		vfBeat(map[string]any{"case": i, "seed": seed, "scripted": i < len(scripted)})
 		if i < len(scripted) {
 			sc := scripted[i]
 			ops := sc.ops
